@@ -563,3 +563,113 @@ def check_current_file(tier="quick", seed=0, repo="/repo"):
             pass
     res["seconds"] = round(time.time() - t0, 2)
     return res
+
+
+# ---------------------------------------------------------------------------------------------------------
+# Parser.handle_struct / handle_message_def: the two section handlers that are NOT under an SMT contract (their bodies parse untyped YAML values).
+#   (N1) every normal path through the handler calls self.check_duplicate_name(<section>, <the name parameter>, namespaces=<the five shared namespaces>) -
+#        the function verified by SMT for exactly that tuple - before anything is registered (path analysis, as for add_fields);
+#   (N2) the namespaces argument is the literal tuple of the five shared namespaces.
+FIVE_NS = ("constants", "string_constants", "aliases", "struct_defs", "message_defs")
+NAMES_REPLAY = r'''
+import os, sys, pathlib, tempfile, shutil, logging
+sys.path.insert(0, os.path.join(sys.argv[1], "src"))
+logging.disable(logging.CRITICAL)
+from pyrtma.parser import Parser
+tmp = tempfile.mkdtemp(prefix="c12n_")
+first = {"constants": "constants:\n  DUP: 3\n", "string_constants": "string_constants:\n  DUP: hello\n", "aliases": "aliases:\n  DUP: int32\n",
+         "struct_defs": "struct_defs:\n  DUP:\n    fields:\n      a: int32\n", "message_defs": "message_defs:\n  DUP:\n    id: 4100\n    fields:\n      a: int32\n"}
+second = {"struct_defs": "struct_defs:\n  DUP:\n    fields:\n      b: int32\n", "message_defs": "message_defs:\n  DUP:\n    id: 4101\n    fields:\n      b: int32\n"}
+missed = []
+try:
+    for k1, t1 in first.items():
+        for k2, t2 in second.items():
+            if k1 == k2:
+                continue          # a repeated key inside one section of one file is the YAML loader's business
+            d = pathlib.Path(tmp) / f"{k1}_{k2}"; d.mkdir()
+            (d / "child.yaml").write_text(t1)
+            (d / "root.yaml").write_text("imports:\n  - child.yaml\n" + t2)
+            try:
+                Parser().parse(d / "root.yaml")
+                missed.append(f"{k2} DUP after {k1} DUP")
+            except Exception as ex:
+                if type(ex).__name__ != "DuplicateNameError":
+                    print("C12-REPLAY-NOTE:", k1, k2, type(ex).__name__)
+    if missed:
+        print("C12-REPLAY-VIOLATION: name collisions across the shared namespaces compile without DuplicateNameError:", "; ".join(missed))
+finally:
+    shutil.rmtree(tmp, ignore_errors=True)
+'''
+
+
+def check_name_sites(tier="quick", seed=0, repo="/repo"):
+    t0 = time.time()
+    res = dict(obligations=0, discharged=0, open={}, discharged_names=[], samples=[], by_backend={}, seconds=0.0, crashes=[], undecided=[], bounded=[],
+               assumptions=["handle_struct / handle_message_def are not under an SMT contract; that each of them runs the (SMT-verified) five-namespace name check on its name parameter on every "
+                            "normal path before registering anything is decided by a path analysis of the function (pyvc/importcheck.py)"])
+    try:
+        tree = ast.parse(open(os.path.join(repo, "src", "pyrtma", "parser.py")).read())
+    except (OSError, SyntaxError) as ex:
+        res["crashes"].append(f"parser.py: {ex}")
+        return res
+    cls = next((n for n in tree.body if isinstance(n, ast.ClassDef) and n.name == "Parser"), None)
+    for fn in ("handle_struct", "handle_message_def"):
+        name = f"C12/{fn}/name-checked-against-the-five-namespaces-before-registration"
+        res["obligations"] += 1
+        fd = next((n for n in (cls.body if cls else []) if isinstance(n, ast.FunctionDef) and n.name == fn), None)
+        if fd is None or len(fd.args.args) < 2:
+            res["undecided"].append(f"{name}: Parser.{fn} not found")
+            continue
+        param = fd.args.args[1].arg
+        calls = [c for c in ast.walk(fd) if isinstance(c, ast.Call) and ast.unparse(c.func) == "self.check_duplicate_name"]
+        why = None
+
+        def full(c):
+            ns = next((k.value for k in c.keywords if k.arg == "namespaces"), c.args[2] if len(c.args) > 2 else None)
+            nm = c.args[1] if len(c.args) > 1 else next((k.value for k in c.keywords if k.arg == "name"), None)
+            if not (isinstance(nm, ast.Name) and nm.id == param):
+                return False, f"checks {ast.unparse(nm) if nm is not None else '?'} instead of the name parameter {param}"
+            if not isinstance(ns, (ast.Tuple, ast.List)) or not all(isinstance(e_, ast.Constant) for e_ in ns.elts):
+                return None, f"namespaces argument {ast.unparse(ns) if ns is not None else '?'} is not a literal tuple"
+            got = tuple(e_.value for e_ in ns.elts)
+            missing = [n_ for n_ in FIVE_NS if n_ not in got]
+            if missing:
+                return False, f"the name is not checked against {missing}: a {fn[7:]} may share its name with an item of that kind"
+            return True, ""
+        verdicts = [full(c) for c in calls]
+        good_calls = [c for c, (v, _) in zip(calls, verdicts) if v is True]
+        if not calls:
+            why = (False, f"{fn} never calls self.check_duplicate_name")
+        elif not good_calls:
+            why = next(((v, t) for v, t in verdicts if v is False), verdicts[0])
+        if why is None:
+            def is_call(v, _good=good_calls):
+                return any(v is c for c in _good)
+            # registration sites: stores into the tables, and the delegations that register (handle_signal / handle_reserve / add_fields)
+            fall, ret = _exits_without(fd.body, is_call)
+            if fall or ret:
+                why = (False, f"{fn} can finish (or reach its registration code) on a path that never ran the name check")
+        if why is None:
+            res["discharged"] += 1
+            res["discharged_names"].append(name)
+            res["by_backend"]["dataflow"] = res["by_backend"].get("dataflow", 0) + 1
+            if len(res["samples"]) < 2:
+                res["samples"].append(dict(obligation=name, goal=f"every normal path of {fn} runs check_duplicate_name(<section>, {param}, namespaces=the five shared namespaces) first", backend="dataflow"))
+        elif why[0] is None:
+            res["undecided"].append(f"{name}: {why[1]}")
+        else:
+            res["open"][name] = dict(kind="ensures", status="refuted", reason="path analysis", candidates=[], text=why[1])
+    if res["open"]:
+        import subprocess
+        try:
+            p = subprocess.run(["/venv/bin/python", "-c", NAMES_REPLAY, repo], capture_output=True, text=True, timeout=240)
+            lines = [l for l in p.stdout.splitlines() if l.startswith("C12-REPLAY-VIOLATION")]
+            if lines:
+                for info in res["open"].values():
+                    info.update(reproduced=True, replay_how="child.yaml defines DUP as a constant / string constant / alias / struct / message; root.yaml imports it and defines a struct or message DUP",
+                                verifier_output=info["text"])
+                    info["text"] += "\nreplayed on the real parser: " + lines[0]
+        except Exception:
+            pass
+    res["seconds"] = round(time.time() - t0, 2)
+    return res
